@@ -70,6 +70,7 @@ class Context:
         self.divisors = {}      # key -> Sym : every non-constant divisor met (must be entailed non-zero)
         self.concretise_enabled = False   # finite-domain variables: hash()/int() fork over the domain
         self.cond_assumptions = []        # assumptions given as condition trees (executor.cond_*)
+        self.abs_as_atom = False          # abs(x) of a symbolic x: False = decide the sign (fork), True = the atom sqrt(x^2)
 
     # ---- variables -----------------------------------------------------
     def var(self, name, positive=False, lo=None, hi=None, kind="input", nonneg=False, domain=None):
@@ -541,6 +542,9 @@ class Sym:
         return Sym({})
 
     def __abs__(self):
+        if not self.poison and not self.is_const() and getattr(_ctx(), "abs_as_atom", False):
+            # |x| as the non-negative root of x^2 (one atom, no case split on the sign of x)
+            return (self * self).sqrt()
         if self >= 0:
             return self
         return -self
